@@ -41,6 +41,30 @@
       every get is `<Class>.<m>`, `m` stored by the class body itself;
     * `C02_enum_full` is FALSE on the pinned code: `C02_cex_enum_attr_target_base`,
       `C02_cex_enum_nested_scope`, `C02_cex_enum_same_named_class`.
+  THE CALLABLE'S OWN SIGNATURE (model: `FnA.Callable` / `FnA.Sig`, RattrModel/Callable.lean; lemmas:
+  Lemmas/C02Callable.lean). `FunctionAnalyser` receives the whole definition node; its parameter
+  defaults, annotations, return annotation, decorators and type-parameter bounds are evaluated at
+  definition time in the enclosing scope and are NOT body code.
+    * `C02_callable_full_holds` (all inputs): every reported name is justified by `c.body` — the
+      statement does not mention `c.sig`;
+    * `C02_signature_irrelevant`: same parameter names + same body ⇒ same analysis, whatever the
+      signatures are; `C02_nothing_only_from_signature`: no reported name is `OnlyInSignature`;
+    * `C02_signature_with_empty_body`, `C02_call_free_body`, `C02_reported_call_has_call_node`:
+      a body that mentions nothing reports nothing, a body without call nodes reports no call
+      and only spelled occurrences, every reported call starts at a call node of the BODY;
+    * `C02_cex_if_defaults_were_visited`: the alternative "defaults are visited too"
+      (`Callable.analyseVisitingDefaults`, not the pinned code) reports names the body justifies
+      under no kind — the statement separates the two; `C02_stamp_only_in_signature`: non-vacuity;
+    * `C02_file_entry_def / _lambda / _static / _init`: the FileIr entry `FileAnalyser` /
+      `ClassAnalyser` files for each kind of analysed callable is `Callable.analyse` of the
+      definition with ANY signature, and is justified by its body;
+    * `tieA_callable_reads`, `tieA_unread_fields_are_the_signature`: what `analyse`,
+      `visit_AnyFunctionDef`, `get_function_body`, `add_arguments_to_context`,
+      `CallInterface.from_arguments` read of the definition node (regenerated from the source),
+      and that CPython's remaining expression-valued fields are exactly `Sig`.
+    Nested defs / lambdas inside a body: their signatures ARE expressions of that body (the
+    property admits them); the pinned `visit_AnyFunctionDef` reads parameter names and body only,
+    so the model's `Node.funcDef` / `Node.lam` carry no signature and `occ` lists none.
   [interp] (i) spellings are those of rattr's namer `names_of` (README agreement is C10);
   (ii) an assignment target is "stored" by position (`Role.target`), a walrus records the BASE
   name of its target (= its spelling for the only valid target, a bare Name: `walrus_name`);
@@ -52,6 +76,8 @@ import RattrProofs.Lemmas.VisitSpec
 import RattrProofs.Lemmas.VisitJust
 import RattrProofs.Props.C01
 import RattrProofs.Lemmas.ClassEntries
+import RattrProofs.Lemmas.C02Callable
+import RattrModel.Generated.C02
 
 namespace Rattr.C02
 open Rattr Rattr.FnA Rattr.Strs Rattr.AccessSpec Rattr.Justify
@@ -414,5 +440,201 @@ example :
     prefixed (tableE []) (S "E") = [] ∧ plainStmtL stmts = true ∧
     fullsOf (enumEntry (S "E") stmts (tableE [])) = [S "E.A", S "E.B", S "E.C", S "E.D"] := by
   decide +kernel
+
+/-! ### the analysed callable's OWN SIGNATURE is not part of its body
+
+Model: `FnA.Callable` (RattrModel/Callable.lean) — the definition node as `FunctionAnalyser`
+receives it, with its defaults / keyword-only defaults / annotations / return annotation /
+decorators / type parameters (`Sig`). -/
+
+/-- C02 for the definition node: every reported name is justified by the BODY (`c.body`) — the
+statement does not mention `c.sig`, so no signature expression can be the justification. -/
+def C02_callable_full : Prop :=
+  ∀ (env : Env) (mn : Str) (root : Context) (c : Callable) (s' : St),
+    Callable.analyse env mn root c = .ok s' →
+      (∀ x ∈ s'.gets, Justified c.body .get x.full) ∧ (∀ x ∈ s'.sets, Justified c.body .set x.full) ∧
+      (∀ x ∈ s'.dels, Justified c.body .del x.full) ∧ (∀ k ∈ s'.calls, Justified c.body .call k.name)
+
+theorem C02_callable_full_holds : C02_callable_full := by
+  intro env mn root c s' h
+  have hj := Callable.analyse_just h
+  exact ⟨hj.gets, hj.sets, hj.dels, hj.calls⟩
+
+/-- the signature is irrelevant: two definitions with the same parameter names and the same body
+have the same analysis (outcome, IR, diagnostics, context), whatever their defaults, annotations
+and decorators are. -/
+theorem C02_signature_irrelevant (env : Env) (mn : Str) (root : Context) (g g' : Sig) (ps : Params)
+    (body : List Node) :
+    Callable.analyse env mn root { sig := g, ps := ps, body := body } =
+      Callable.analyse env mn root { sig := g', ps := ps, body := body } := rfl
+
+/-- `n` (as kind `k`) is mentioned by the signature only: an expression of `c.sig` would justify
+it if it were body code, and nothing of the body does. -/
+def OnlyInSignature (c : Callable) (k : AccessSpec.Kind) (n : Str) : Prop :=
+  Justified c.sig.exprs k n ∧ ¬ Justified c.body k n
+
+/-- nothing in the callable's own entry is justified only by its signature / decorators. -/
+theorem C02_nothing_only_from_signature (env : Env) (mn : Str) (root : Context) (c : Callable) (s' : St)
+    (h : Callable.analyse env mn root c = .ok s') :
+    (∀ x ∈ s'.gets, ¬ OnlyInSignature c .get x.full) ∧ (∀ x ∈ s'.sets, ¬ OnlyInSignature c .set x.full) ∧
+    (∀ x ∈ s'.dels, ¬ OnlyInSignature c .del x.full) ∧ (∀ k ∈ s'.calls, ¬ OnlyInSignature c .call k.name) := by
+  obtain ⟨hg, hs, hd, hc⟩ := C02_callable_full_holds env mn root c s' h
+  exact ⟨fun x hx ho => ho.2 (hg x hx), fun x hx ho => ho.2 (hs x hx), fun x hx ho => ho.2 (hd x hx),
+         fun k hk ho => ho.2 (hc k hk)⟩
+
+/-- a body that mentions nothing (`pass`, `...`, a docstring, constants) has the empty IR, whatever
+the signature mentions. -/
+theorem C02_signature_with_empty_body (env : Env) (mn : Str) (root : Context) (c : Callable) (s' : St)
+    (h0 : occL c.body = []) (h : Callable.analyse env mn root c = .ok s') :
+    s'.gets = [] ∧ s'.sets = [] ∧ s'.dels = [] ∧ s'.calls = [] := by
+  obtain ⟨hg, hs, hd, hc⟩ := C02_callable_full_holds env mn root c s' h
+  refine ⟨List.eq_nil_iff_forall_not_mem.mpr fun x hx => not_justified_of_no_occ h0 _ _ (hg x hx),
+          List.eq_nil_iff_forall_not_mem.mpr fun x hx => not_justified_of_no_occ h0 _ _ (hs x hx),
+          List.eq_nil_iff_forall_not_mem.mpr fun x hx => not_justified_of_no_occ h0 _ _ (hd x hx),
+          List.eq_nil_iff_forall_not_mem.mpr fun x hx => not_justified_of_no_occ h0 _ _ (hc x hx)⟩
+
+/-- a body without a call node reports no call — `def stamp(event, when=clock.now()): event.at =
+when` cannot report `clock.now` — and every name it reports is the spelling of one of ITS
+occurrences in the role of that kind (no receiver prefix, no getattr-family / plugin derivation). -/
+theorem C02_call_free_body (env : Env) (mn : Str) (root : Context) (c : Callable) (s' : St)
+    (hf : CallFree c.body) (h : Callable.analyse env mn root c = .ok s') :
+    s'.calls = [] ∧
+    (∀ x ∈ s'.gets, ∃ r node, (r, node) ∈ occL c.body ∧ Spelled r node .get x.full) ∧
+    (∀ x ∈ s'.sets, ∃ r node, (r, node) ∈ occL c.body ∧ Spelled r node .set x.full) ∧
+    (∀ x ∈ s'.dels, ∃ r node, (r, node) ∈ occL c.body ∧ Spelled r node .del x.full) := by
+  obtain ⟨hg, hs, hd, hc⟩ := C02_callable_full_holds env mn root c s' h
+  exact ⟨List.eq_nil_iff_forall_not_mem.mpr fun k hk => not_justified_call_of_callFree hf _ (hc k hk),
+         fun x hx => (hg x hx).of_callFree hf, fun x hx => (hs x hx).of_callFree hf,
+         fun x hx => (hd x hx).of_callFree hf⟩
+
+/-- every call the callable reports starts at a call node of its body. -/
+theorem C02_reported_call_has_call_node (env : Env) (mn : Str) (root : Context) (c : Callable) (s' : St)
+    (h : Callable.analyse env mn root c = .ok s') (k : CallSym) (hk : k ∈ s'.calls) :
+    ∃ node, (Role.call, node) ∈ occL c.body :=
+  ((C02_callable_full_holds env mn root c s' h).2.2.2 k hk).call_needs_call_node
+
+/-- `def stamp(event, when=clock.now(), *, factor=DEFAULTS.factor[0]): event.at = when; return event` -/
+def stamp : Callable :=
+  { sig := { defaults := [.call (.attr (.name (S "clock") .load) (S "now") .load) [] [] []],
+             kwDefaults := [.sub (.attr (.name (S "DEFAULTS") .load) (S "factor") .load) .const .load] },
+    ps := ⟨[], [S "event", S "when"], none, [S "factor"], none⟩,
+    body := [.assign [.attr (.name (S "event") .load) (S "at") .store] (.name (S "when") .load),
+             .ret [.name (S "event") .load]] }
+
+def stampRoot : Context :=
+  [[(S "clock", Context.nameSym (S "clock")), (S "DEFAULTS", Context.nameSym (S "DEFAULTS"))]]
+
+/-- TEST (kernel evaluation): the pinned analysis of `stamp` — sets `event.at`, gets `when`,
+`event`; no call; nothing of `clock.now()` / `DEFAULTS.factor[0]`. -/
+theorem C02_test_stamp :
+    C01.getsOf (Callable.analyse C01.env0 (S "m") stampRoot stamp) = some [S "when", S "event"] ∧
+    C01.setsOf (Callable.analyse C01.env0 (S "m") stampRoot stamp) = some [S "event.at"] ∧
+    C01.callsOf (Callable.analyse C01.env0 (S "m") stampRoot stamp) = some [] := by decide +kernel
+
+/-- what C02 excludes: were the defaults visited as if they were body code
+(`Callable.analyseVisitingDefaults`, NOT the pinned behaviour), `stamp` would report the call
+`clock.now` and the get `DEFAULTS.factor[]` — names the signature mentions and the
+body justifies under NO kind: the property statement separates the two behaviours. -/
+theorem C02_cex_if_defaults_were_visited :
+    C01.callsOf (Callable.analyseVisitingDefaults C01.env0 (S "m") stampRoot stamp) = some [S "clock.now"] ∧
+    C01.getsOf (Callable.analyseVisitingDefaults C01.env0 (S "m") stampRoot stamp) =
+      some [S "DEFAULTS.factor[]", S "when", S "event"] ∧
+    (∀ k, ¬ Justified stamp.body k (S "clock.now")) ∧ (∀ k, ¬ Justified stamp.body k (S "DEFAULTS.factor[]")) := by
+  refine ⟨by decide +kernel, by decide +kernel, fun k => ?_, fun k => ?_⟩ <;>
+    exact not_justified_of_noneSpells (by decide +kernel) (by decide +kernel) k
+
+/-- … and those names ARE what the signature would justify: `OnlyInSignature` is inhabited by
+exactly this class (non-vacuity of `C02_nothing_only_from_signature`). -/
+theorem C02_stamp_only_in_signature :
+    OnlyInSignature stamp .call (S "clock.now") ∧ OnlyInSignature stamp .get (S "DEFAULTS.factor[]") := by
+  refine ⟨⟨?_, C02_cex_if_defaults_were_visited.2.2.1 _⟩, ⟨?_, C02_cex_if_defaults_were_visited.2.2.2 _⟩⟩
+  · exact .occ .call (.call (.attr (.name (S "clock") .load) (S "now") .load) [] [] [])
+      (by simp [stamp, Sig.exprs, occL, occ]) ⟨rfl, true, S "clock", S "clock.now()", by decide +kernel, by decide +kernel⟩
+  · exact .occ .load (.sub (.attr (.name (S "DEFAULTS") .load) (S "factor") .load) .const .load)
+      (by simp [stamp, Sig.exprs, occL, occ, roleOf]) ⟨rfl, true, S "DEFAULTS", by decide +kernel⟩
+
+/-! ### … at the level of the FileIr: the entries `FileAnalyser` / `ClassAnalyser` file -/
+
+open Rattr.FileA Rattr.RootCtx in
+/-- module-level `def` / `async def`: the FileIr entry is `Callable.analyse` of the definition node
+with ANY signature `g` (the model's `Top.funcDef` carries the decorators only as far as
+`rattr_ignore` / `rattr_results` go), and everything in it is justified by the body. -/
+theorem C02_file_entry_def (env : Env) (mn : Str) (f : Facts) (name : Str) (g : Sig) (ps : Params)
+    (body : List Node) (decos : List Ann.Deco) (a : Bool) (s : FState) (fn : Sym) (t : St)
+    (hi : Ann.hasAnnotation Ann.nIgnore decos = .ok false) (hx : name ∉ f.excluded)
+    (hfn : getFunc s.ctx name = some fn) (hr : Ann.hasAnnotation Ann.nResults decos = .ok false)
+    (hc : analyserFor env mn (some fn) = none)
+    (ht : Callable.analyse env mn s.ctx { sig := g, ps := ps, body := body } = .ok t) :
+    visitTop env mn f (.funcDef name ps body decos a) s = .ok (stored s fn t) ∧
+    Dict.get? (stored s fn t).ir fn = some (FileA.irOf t) ∧ Just body t :=
+  let h := C01.fileAnalyser_uses_fnA env mn f name ps body decos a s fn t hi hx hfn hr hc ht
+  ⟨h.1, h.2.1, Callable.analyse_just ht⟩
+
+open Rattr.FileA Rattr.RootCtx in
+/-- named lambda (`x = lambda …`, `x: ANN = lambda …` — `extra` is the annotation): the entry is
+`Callable.analyse` of the lambda with any signature; the annotation `extra` and the lambda's
+defaults are not consulted. -/
+theorem C02_file_entry_lambda (env : Env) (mn : Str) (f : Facts) (x : Str) (c : ECtx) (extra : List Node)
+    (g : Sig) (ps : Params) (body : Node) (s : FState) (fn : Sym) (t : St) (hfn : getFunc s.ctx x = some fn)
+    (ht : Callable.analyse env mn s.ctx { sig := g, ps := ps, body := [body] } = .ok t) :
+    visitTop env mn f (.assign [.name x c] extra (some (.lam ps body))) s = .ok (stored s fn t) ∧ Just [body] t :=
+  ⟨C01.fileAnalyser_uses_fnA_lambda env mn f x c extra ps body s fn t hfn ht, Callable.analyse_just ht⟩
+
+open Rattr.FileA Rattr.RootCtx in
+/-- static method: the entry `<Class>.<m>` is `Callable.analyse` of the method with any signature
+(its decorators beyond `staticmethod`, its defaults, the class header play no part). -/
+theorem C02_file_entry_static (env : Env) (mn : Str) (cls : Str) (m : Method) (g : Sig) (s : FState) (cir : ClassIr)
+    (k : FState → ClassIr → FOut) (t : St)
+    (ht : Callable.analyse env mn (Context.add s.ctx (funcSym (cls ++ '.' :: m.name) m.ps.iface))
+            { sig := g, ps := m.ps, body := m.body } = .ok t) :
+    visitStatic env mn cls m s cir k =
+      k { ctx := t.ctx, diags := s.diags ++ t.diags, ir := s.ir }
+        (Dict.set cir (funcSym (cls ++ '.' :: m.name) m.ps.iface) (FileA.irOf t)) ∧ Just m.body t :=
+  ⟨C01.fileAnalyser_uses_fnA_static env mn cls m s cir k t ht, Callable.analyse_just ht⟩
+
+open Rattr.FileA Rattr.RootCtx in
+/-- class initialiser: the entry under the class symbol is `Callable.analyse` of `__init__` with any
+signature. -/
+theorem C02_file_entry_init (env : Env) (mn : Str) (cls : Str) (decos : List Ann.Deco) (init : Method) (g : Sig)
+    (s : FState) (cir : ClassIr) (k : FState → ClassIr → FOut) (sy : Sym) (t : St)
+    (hi : Ann.hasAnnotation Ann.nIgnore decos = .ok false) (hsy : getClass s.ctx cls = some sy)
+    (hr : Ann.hasAnnotation Ann.nResults decos = .ok false)
+    (ht : Callable.analyse env mn (updateSymbol s.ctx { sy with iface := some init.ps.iface, callable := true })
+            { sig := g, ps := init.ps, body := init.body } = .ok t) :
+    visitInitialiser env mn cls decos init s cir k =
+      k { ctx := t.ctx, diags := s.diags ++ t.diags, ir := s.ir }
+        (Dict.set cir { sy with iface := some init.ps.iface, callable := true } (FileA.irOf t)) ∧ Just init.body t :=
+  ⟨C01.fileAnalyser_uses_fnA_init env mn cls decos init s cir k sy t hi hsy hr ht, Callable.analyse_just ht⟩
+
+/-! ### Tie A: what of the definition node the analyser reads (Generated/C02.lean) -/
+
+open Rattr.Generated.C02 in
+/-- `FunctionAnalyser.analyse` and `visit_AnyFunctionDef` touch the definition node only as `$.args`
+and as a whole (`$`, handed to `get_function_body` / `token=` / `Func.from_fn_def` / `error.error`);
+`get_function_body` reads `.body`; `add_arguments_to_context` hands `arguments` to
+`CallInterface.from_arguments`, which reads the five parameter-name fields and `.arg`. -/
+theorem tieA_callable_reads :
+    analyseReads = ["$", "$.args"] ∧
+    analyseEscapes = ["get_function_body#0", "self.context.add_arguments_to_context#token"] ∧
+    nestedReads = ["$", "$.args"] ∧
+    nestedEscapes = ["Func.from_fn_def#0", "error.error#1", "get_function_body#0", "isinstance#0",
+                     "self.context.add_arguments_to_context#token"] ∧
+    functionBodyReads = ["$", "$.body", "$.lineno"] ∧
+    addArgumentsReads = ["$"] ∧ addArgumentsEscapes = ["CallInterface.from_arguments#0"] ∧
+    fromArgumentsReads = ["$.args", "$.kwarg", "$.kwonlyargs", "$.posonlyargs", "$.vararg"] ∧
+    fromArgumentsAttrs = ["arg", "args", "kwarg", "kwonlyargs", "posonlyargs", "vararg"] := by decide
+
+open Rattr.Generated.C02 in
+/-- … so of CPython's fields of a definition node, the ones that stay UNREAD are exactly the model's
+`Sig` (`Sig.fieldNames`) plus the two that hold no expression (`name`, `type_comment`). -/
+theorem tieA_unread_fields_are_the_signature :
+    (functionDefFields.filter fun f => !(analyseReads ++ functionBodyReads).contains ("$." ++ f)) =
+      ["name", "decorator_list", "returns", "type_comment", "type_params"] ∧
+    asyncFunctionDefFields = functionDefFields ∧ lambdaFields = ["args", "body"] ∧
+    (argumentsFields.filter fun f => !fromArgumentsReads.contains ("$." ++ f)) = ["kw_defaults", "defaults"] ∧
+    (argFields.filter fun f => !fromArgumentsAttrs.contains f) = ["annotation", "type_comment"] ∧
+    (∀ f ∈ Sig.fieldNames, f ∈ functionDefFields ++ argumentsFields ++ argFields ∧
+        !(analyseReads ++ functionBodyReads ++ fromArgumentsReads).contains ("$." ++ f) ∧
+        !fromArgumentsAttrs.contains f) := by decide
 
 end Rattr.C02
